@@ -1891,6 +1891,10 @@ def _intarg(t):
 def stub_nondet_string(ex, args, guard, ins):
     nm = _label(args[0])
     n = _intarg(args[1])
+    conc = getattr(ex, 'concrete', None)
+    if conc is not None and nm in conc:
+        # translator validation: the input is a concrete string, the run is a concrete run
+        return Str.lit(conc[nm])
     L = var('%s_len' % nm, 64)
     if n >= 0:
         bs = tuple(var('%s_b%d' % (nm, i), 8) for i in range(n))
@@ -2066,7 +2070,10 @@ def stub_relation(kind):
 
 
 def stub_observe(ex, args, guard, ins):
-    ex.observed.append((_label(args[0]), args[1], guard))
+    v = args[1]
+    if isinstance(v, Ifc) and len(v.alts) == 1:
+        v = v.alts[0][2]
+    ex.observed.append((_label(args[0]), v, guard))
     return None
 
 
